@@ -44,8 +44,12 @@ import (
 
 const flatEntries = 2000 // entries of the flat directory garbage-collected by one fan-out
 const flatBound = 1000   // further backend operations allowed there (≤ 1/2 operation per entry left; in-flight goroutines finish their entry)
-const startedBound = 100 // fan-out: entries first touched after the cancellation instant (goroutines caught between their context check and their first operation)
-const bound = 128        // further backend operations allowed after the cancellation instant (sequential entry points)
+// startedBound: fan-out, entries first touched after the cancellation instant. Goroutines which had passed their context
+// check and were parked on the library's own (contended) resource mutex before their first backend operation are
+// legitimately among them: observed 0-1 on an idle machine, 141 once in ~1700 thorough-tier cancellations on a loaded
+// one. A loop which keeps starting entries touches every remaining one (thousands in the flat directory).
+const startedBound = 600
+const bound = 128 // further backend operations allowed after the cancellation instant (sequential entry points)
 
 // ---------------------------------------------------------------------------------------------
 // Part B: filesystem entry points
